@@ -28,6 +28,9 @@ def cases(rng, tier):
         a, b, n0 = comp
         for pat in ("0" * n0 + "+" * a + "-" * b, "+" * a + "-" * b + "0" * n0, "-" * b + "+" * a + "0" * n0):
             yield Case(block(gen.spell(pat, rng)), {"kind": "segregated-input"})
+    # block-ordered chains with >= 18 neutral residues whose own arrangement lies outside (and above) the scanned family
+    for sq in gen.block_arrangements(rng, 20 if tier == "quick" else 200):
+        yield Case(block(sq), {"kind": "block-ordered-input"})
     # objects handed back by moves / shuffles, and copy / deepcopy / pickle duplicates of objects with built-up state
     for l in core.childq_cases(rng, 60 if tier == "quick" else 400, ['dmax', 'dmaxperm']):
         yield Case([l], {"kind": "object-from-move-or-copy"})
